@@ -75,7 +75,10 @@ Definition add_tmp (p : path) (l : list path) := if existsb (Nat.eqb p) l then l
 
 (* ------------------------------------------------------------------ git steps: None = git refuses, nothing changes *)
 
-(* git worktree add -b b <tmp p>/<normref> ref   (creates leading directories) *)
+(* git worktree add -b b <tmp p>/<normref> ref   (creates leading directories).
+   Modelled for an unoccupied path only, which is the only way tmp_worktree calls it (a directory fresh from
+   mkdtemp) and a hypothesis of every theorem ([fresh]): on an occupied path real git 2.39 creates the branch
+   first and fails afterwards, which this definition does not reproduce (it refuses without effect). *)
 Definition wt_add (b : string) (p : path) (r : string) (s : repo) : option repo :=
   match resolve s r with
   | None => None
